@@ -2,7 +2,7 @@
 (* Model-checking instance of Concurrency with the default (static) constants; the *)
 (* checker generates ConcurrencyGen.tla + cfg for the emitting / burst runs.       *)
 EXTENDS Concurrency
-McTpls == {"kv", "ann", "lm", "ver", "nj", "nl", "mut", "cli"}
+McTpls == {"kv", "ann", "lm", "ver", "nj", "nl", "mut", "cli", "mcli", "vox", "annsync"}
 McOnly == {}
 McBursts == <<>>
 =============================================================================
